@@ -36,6 +36,12 @@ def widthHand (rows nslice step : Nat) : Nat :=
 def yminsHand (rows nslice w : Nat) : List Nat := if nslice > 1 then Py.range 0 rows w else [0]
 def ymaxsHand (rows nslice w : Nat) : List Nat := if nslice > 1 then Py.range w rows w ++ [rows] else [rows]
 
+/-- hand fallbacks of the regenerated halo / box arithmetic of `sigma_filter` -/
+def dataRowMinHand (lo _hi bh _bw _nrows : Nat) : Int := max 0 ((lo : Int) - ((bh / 2 : Nat) : Int))
+def dataRowMaxHand (_lo hi bh _bw nrows : Nat) : Nat := min nrows (hi + bh / 2)
+def boxRMinHand (r bh _bw _dlen : Nat) : Int := max 0 ((r : Int) - ((bh / 2 : Nat) : Int))
+def boxRMaxHand (r bh _bw dlen : Nat) : Nat := min dlen (r + bh / 2)
+
 /-- `if (nslice is None) or (cores == 1): nslice = cores` -/
 def effSlices (cores : Nat) (nslice : Option Nat) : Nat :=
   match nslice with
